@@ -196,6 +196,17 @@ func c19Mutate(r *vlib.Rand, t string) (string, string) {
 		}
 		return cand[r.Intn(len(cand))], true
 	}
+	if r.Chance(0.03) {
+		// a very long value (beyond 64 KiB and 1 MiB line / token buffers)
+		if k, ok := pick('s'); ok && k.e-k.s >= 2 {
+			n := vlib.Pick(r, []int{4096, 65535, 65536, 70000, 1 << 20})
+			pos := k.s + 1 + r.Intn(k.e-k.s-1)
+			return t[:pos] + strings.Repeat(vlib.Pick(r, []string{"a", "Z9", "%20"}), n/2) + t[pos:], "very_long_value"
+		}
+		if k, ok := pick('i'); ok {
+			return t[:k.e] + strings.Repeat("b", 70000) + t[k.e:], "very_long_value"
+		}
+	}
 	switch r.Intn(14) {
 	case 0: // quote an unquoted value
 		if k, ok := pick('i'); ok {
